@@ -210,7 +210,7 @@ func TestVerifC19GelfStream(t *testing.T) {
 			parts := bytes.Split(stream, []byte{0})
 			frames := parts[:len(parts)-1] // what follows the last NUL is an unterminated tail: not a frame, receivers discard it
 			seen := map[int]int{}
-			var ids []int
+			idAt := make([]int, len(frames)) // event id of the frame where it can be told (also from a re-prefixed __c19id), else 0
 			for fi, frame := range frames {
 				res.Frames++
 				v := c19gsViolation{Round: round, Conn: ci, Frame: fi, OnRetry: ci > 0, Text: c19gsClip(frame)}
@@ -234,12 +234,14 @@ func TestVerifC19GelfStream(t *testing.T) {
 					v.Text = strings.Join(keys, " ")
 					add(v)
 					if f2, ok2 := m["__c19id"].(float64); ok2 {
-						ids = append(ids, int(f2))
+						idAt[fi] = int(f2)
+					} else if ok && known {
+						idAt[fi] = int(idf)
 					}
 					continue
 				}
 				id := int(idf)
-				ids = append(ids, id)
+				idAt[fi] = id
 				seen[id]++
 				if seen[id] == 2 {
 					v.Kind = "gelf_stream_frame_twice"
@@ -247,13 +249,14 @@ func TestVerifC19GelfStream(t *testing.T) {
 				}
 			}
 			if delivered && ci == len(received)-1 {
-				ok := len(ids) == nEvents
-				for i := 0; ok && i < nEvents; i++ {
-					ok = ids[i] == i+1
+				// exactly the batch's frames, in order (frames whose id cannot be told are judged by their position)
+				ok := len(frames) == nEvents
+				for i := 0; ok && i < len(frames); i++ {
+					ok = idAt[i] == 0 || idAt[i] == i+1
 				}
 				if !ok {
 					add(c19gsViolation{Kind: "gelf_stream_batch_not_whole", Round: round, Conn: ci, OnRetry: ci > 0,
-						Text: fmt.Sprintf("connection of the successful attempt carries %d frames (ids %.60v) for a batch of %d events", len(frames), ids, nEvents)})
+						Text: c19gsClip([]byte(fmt.Sprintf("connection of the successful attempt carries %d frames for a batch of %d events; ids by position %v", len(frames), nEvents, idAt)))})
 				}
 			}
 		}
